@@ -164,3 +164,24 @@ package store
 //@   internal ensures @C17-old-index-closed gold == 1 ==> goldref.$closed
 //@   internal ensures @C17-new-index-closed gnew == 1 ==> gnewref.$closed
 //@   loop 0 invariant oldIndex != nil && newIndex != nil && fresh(oldIndex) && fresh(newIndex) && oldIndex != newIndex && gold == 1 && gnew == 1 && goldref == oldIndex && gnewref == newIndex && (oldIndex.gcStop == nil || fresh(oldIndex.gcStop)) && (oldIndex.gcDone == nil || fresh(oldIndex.gcDone)) && (newIndex.gcStop == nil || fresh(newIndex.gcStop)) && (newIndex.gcDone == nil || fresh(newIndex.gcDone)) && fresh(ticker.C) && iter != nil && fresh(iter) && iter.index == oldIndex && newIndex.Primary == primary && ticker != nil && (!primary.$pending || primary.$failed)
+
+// OpenStore (C17, C09): a failed open releases what it had acquired - the freelist and the
+// primary are closed on every error path after they were opened; re-bucketing is attempted only
+// for the bit-size mismatch error and the index is reopened only if it succeeded.
+//@ func OpenStore(ctx context.Context, primaryType string, dataPath string, indexPath string, immutable bool, options ...Option) (s *Store, err error)  property C17 C09
+//@   modifies ctx.$done, fp(FC), heap("/store/index."), heap("/store/freelist."), heap("/store/primary/"), heap("os.File"), heap("store.config.")
+//@   ghost var gfl *freelist.FreeList = ptr(freelist.FreeList, 0)
+//@   ghost var gprim bool = false
+//@   ghost var gpclosed bool = false
+//@   ghost at after call freelist.Open#0: gfl = $r0
+//@   ghost at after call mhprimary.Open#0: gprim = ($r1 == nil)
+//@   ghost at after call cidprimary.Open#0: gprim = ($r1 == nil)
+//@   ghost at after call (primary.PrimaryStorage).Close#0: gpclosed = true
+//@   assert at before call store.translateIndex#0: @C09-translate-only-on-bit-size-mismatch err != nil
+//@   ensures @result err != nil <==> s == nil
+//@   internal ensures @C17-failed-open-closes-freelist err != nil && gfl != nil ==> !gfl.file.$open
+//@   internal ensures @C17-failed-open-closes-primary err != nil && gprim ==> gpclosed
+
+//@ func (c *config) apply(opts []Option)
+//@   trusted options are closures that only assign fields of the config they are given
+//@   modifies heap("store.config.")
